@@ -28,7 +28,9 @@ def assigned_names(stmts):
             if isinstance(n, ast.Name) and isinstance(n.ctx, ast.Store):
                 out.add(n.id)
             if isinstance(n, ast.Yield):
-                out.update(('$ycnt', '$yany', '$ylast'))       # ghost state of a generator
+                out.update(('$ycnt', '$yany', '$ylast', '$ypair'))       # ghost state of a generator
+            if isinstance(n, ast.Subscript) and isinstance(n.ctx, ast.Store) and isinstance(n.value, ast.Name):
+                out.add(n.value.id)                          # d[k] = v mutates the local d
     return out
 
 
@@ -49,6 +51,12 @@ def havoc_like(v, name):
         return VTuple([havoc_like(x, name) for x in v.items])
     if k == 'opaque' and v.tag == 'ghost':
         return VOpaque(fresh(name, v.z.sort()), 'ghost')
+    if k == 'dict' and (getattr(v, 'symset', None) is not None or not v.pairs) and not v.esc:
+        d = VDictLit([])
+        d.symset = fresh(name, z3.ArraySort(Node, Bool))
+        return d
+    if k in ('row', 'edgedata', 'timeline', 'interval', 'graph', 'adj', 'tte', 'snap', 'nodedict', 'callable', 'type', 'module', 'str', 'keys', 'bag'):
+        return v            # a reference into the heap / a constant: the havoc of the heap components covers it
     if hasattr(v, 'havoc'):
         return v.havoc(name)
     raise Undecided('cannot havoc a local of kind %s (%s)' % (k, name))
